@@ -312,7 +312,7 @@ class Torus:
                 raise Problem("loopback", "self route must be exactly the loopback of node %d" % s)
             return LBLAT
         cur, lims, visits = s, [], [s]
-        steps = []   # (dimension, sign)
+        steps, uses = [], []   # (dimension, sign); (link, half, from, to)
         for name in links:
             t = dec.get(name) or self.decode(name)
             if t[0] == "lim":
@@ -329,7 +329,7 @@ class Torus:
                 raise Problem("walk-not-connected", "at node %d, next link %s" % (cur, name))
             if self.dims[j] == 2:
                 sign = 0
-            self.orient.use(base, half, cur, nxt)
+            uses.append((base, half, cur, nxt))
             steps.append((j, sign))
             cur = nxt
             visits.append(cur)
@@ -359,6 +359,8 @@ class Torus:
                 else:
                     self.ties += 1
         self.check_limiters(lims, visits)
+        for u in uses:          # direction book-keeping only for routes that are otherwise in order
+            self.orient.use(*u)
         return LAT * len(steps)
 
     def check_limiters(self, lims, visits):
@@ -502,6 +504,7 @@ class FatTree:
             return LBLAT
         cur, lims, visits = (0, s), [], [(0, s)]
         ups = downs = 0
+        uses = []
         for name in links:
             t = dec.get(name) or self.decode(name)
             if t[0] == "lim":
@@ -520,7 +523,7 @@ class FatTree:
                 downs += 1
             else:
                 raise Problem("walk-not-connected", "at %s, next link %s joins %s-%s" % (cur, name, c, p))
-            self.orient.use(base, half, cur, nxt)
+            uses.append((base, half, cur, nxt))
             cur = nxt
             visits.append(cur)
         if cur != (0, d):
@@ -537,6 +540,8 @@ class FatTree:
         else:
             if collections.Counter(visits) != collections.Counter(lims):
                 raise Problem("limiter", "limiters of %s, walk visits %s" % (sorted(lims), visits))
+        for u in uses:
+            self.orient.use(*u)
         return LAT * (ups + downs)
 
 
@@ -621,6 +626,7 @@ class Dragonfly:
         cur = ("n", s)
         lims, visits, hops = [], [("n", s)], []
         nl = 0
+        uses, cables = [], []
         for name in links:
             t = dec.get(name) or self.decode(name)
             kind = t[0]
@@ -674,10 +680,8 @@ class Dragonfly:
                     else:
                         raise Problem("walk-not-connected", "at %s, next link %s" % (cur, name))
                 hops.append(kind)
-                e = frozenset((cur, nxt))
-                if self.edge_of.setdefault(base, e) != e:
-                    raise Problem("one-name-two-cables", "%s joins %s and %s" % (base, sorted(self.edge_of[base]), sorted(e)))
-            self.orient.use(base, half, cur, nxt)
+                cables.append((base, frozenset((cur, nxt))))
+            uses.append((base, half, cur, nxt))
             cur = nxt
             visits.append(cur)
         if cur != ("n", d):
@@ -706,6 +710,11 @@ class Dragonfly:
         else:
             if collections.Counter(visits) != collections.Counter(lims):
                 raise Problem("limiter", "limiters of %s, walk visits %s" % (sorted(lims), visits))
+        for base, e in cables:
+            if self.edge_of.setdefault(base, e) != e:
+                raise Problem("one-name-two-cables", "%s joins %s and %s" % (base, sorted(self.edge_of[base]), sorted(e)))
+        for u in uses:
+            self.orient.use(*u)
         return LAT * nl
 
 
@@ -962,20 +971,26 @@ def bounds_for(ctx):
     def torus(lo, hi, variants, vs):
         sh = [s for s in torus_shapes(hi) if lo < nodes_of({"kind": "torus", "shape": s}) <= hi]
         return ("torus: all shapes with %d < nodes <= %d, <=5 dims, %s" % (lo, hi, vs), specs_for("torus", sh, variants))
-    b.append(torus(0, 16, ALL8, o8))
-    b.append(torus(16, 32, ALL8, o8))
-    b.append(("fat tree: <=2 levels, down/up/count in {1,2,3}, " + o8, specs_for("fattree", fattree_shapes(2, (1, 2, 3), 64))))
-    b.append(("fat tree: 3 levels, down/up/count in {1,2}, " + o8,
-              specs_for("fattree", [s for s in fattree_shapes(3, (1, 2), 64) if s[0] == 3])))
+    p4 = "x 4 pairwise-covering combinations of loopback/limiter/sharing"
     if q:
         b.append(("dragonfly: groups,chassis,routers,nodes in 1..3 (<=32 nodes), " + o8,
                   [s for s in specs_for("dragonfly", dragonfly_shapes(3, (1,))) if nodes_of(s) <= 32]))
+        b.append(torus(0, 16, ALL8, o8))
+        b.append(("fat tree: <=2 levels, down/up/count in {1,2,3}, " + o8, specs_for("fattree", fattree_shapes(2, (1, 2, 3), 64))))
+        b.append(("fat tree: 3 levels, down/up/count in {1,2}, " + p4,
+                  specs_for("fattree", [s for s in fattree_shapes(3, (1, 2), 64) if s[0] == 3], PAIRWISE4)))
+        b.append(torus(16, 32, TWO, "x {plain split-duplex, loopback+limiter shared}"))
     else:
         b.append(("dragonfly: groups,chassis,routers,nodes in 1..3, " + o8, specs_for("dragonfly", dragonfly_shapes(3, (1,)))))
         b.append(("dragonfly: groups,chassis,routers,nodes in 1..3, link multiplicities in {1,2}^3 (plain split-duplex zones)",
                   specs_for("dragonfly", [s for s in dragonfly_shapes(3, (1, 2)) if (s[1], s[3], s[5]) != (1, 1, 1)], [(0, 0, "D")])))
-        b.append(torus(32, 48, PAIRWISE4, "x 4 pairwise-covering combinations of loopback/limiter/sharing"))
-        b.append(torus(48, 64, PAIRWISE4, "x 4 pairwise-covering combinations of loopback/limiter/sharing"))
+        b.append(torus(0, 16, ALL8, o8))
+        b.append(torus(16, 32, ALL8, o8))
+        b.append(("fat tree: <=2 levels, down/up/count in {1,2,3}, " + o8, specs_for("fattree", fattree_shapes(2, (1, 2, 3), 64))))
+        b.append(("fat tree: 3 levels, down/up/count in {1,2}, " + o8,
+                  specs_for("fattree", [s for s in fattree_shapes(3, (1, 2), 64) if s[0] == 3])))
+        b.append(torus(32, 48, PAIRWISE4, p4))
+        b.append(torus(48, 64, PAIRWISE4, p4))
         f3 = [s for s in fattree_shapes(3, (1, 2, 3), 64) if s[0] == 3 and max(s[1] + s[2] + s[3]) == 3]
         for lo, hi in ((0, 8), (8, 12), (12, 18), (18, 27)):
             sh = [s for s in f3 if lo < nodes_of({"kind": "fattree", "shape": s}) <= hi]
@@ -990,10 +1005,12 @@ def run(ctx):
     evals = pairs = nontriv = 0
     bad, samples, done, skipped = [], [], [], []
     exhaustive = True
+    # the budget counts exploration time: Ctx's clock started before bin/check (re)built libsimgrid
+    deadline = common.Deadline(float(os.environ.get("VERIF_BUDGET_S") or (150 if ctx.quick else 1200)))
     import random, time, concurrent.futures as cf
     pool = cf.ProcessPoolExecutor(max_workers=common.NCPU)   # one pool for all bounds: fresh processes are expensive here
     for name, specs in bounds_for(ctx):
-        if ctx.deadline.over() or (done and ctx.deadline.left() < 15):
+        if done and (deadline.over() or deadline.left() < 15):      # the first bound always runs
             exhaustive = False
             skipped.append(name)
             continue
@@ -1036,7 +1053,7 @@ def run(ctx):
         return signature(spec, r[3]) if r[3] else None
     violations = rc.confirm(ctx, violations, rerun)
     shutil.rmtree(work, ignore_errors=True)
-    if nontriv < 2:
+    if nontriv < 2 and not violations:
         common.log("C26: vacuous run (%d non-trivial zones)" % nontriv)
         sys.exit(2)
     cov = {"evaluations": evals, "distinct_nontrivial": nontriv,
